@@ -149,6 +149,11 @@ package cisco
 // no closure writes; the order of its entries is not part of the clause)
 //vc:  invariant[C02,C14] 5 "for _, r := range diff" @pendingDeleteListUntouched len(del) == loopold(len(del))
 //vc:  invariant[C02,C14] 7 "for i, b := range run" @pendingDeleteListUntouched len(del) == loopold(len(del))
+// (structural: the list, collected top-down, is reversed once before the
+// deletes are issued, and every entry that was not moved is deleted by its own
+// line number - see delACL)
+//vc:  assert[C02,C14] at "slices.Reverse(del)" @deletesIssuedBottomUp true
+//vc:  assert[C02,C14] at "delACL(cmdPos)" @everyPendingLineDeletedOnce cmdPos.cmd != nil && arg0 == cmdPos
 //vc:  assign at "action0 := getIOSAction(run[0])" runUniform = true
 //vc:  assign at "action0 == getIOSAction(b)" runUniform = runUniform && strings.Cut(b.parsed, " ") == action0
 //vc:  invariant[C02,C14] 6 "for tail > 0 && getIOSAction(run[tail-1]) == getIOSAction(run[tail])" @tailHasOneAction 0 <= tail && tail < len(run) && (forall j int :: { run[j] } tail <= j && j < len(run) ==> strings.Cut(run[j].parsed, " ") == strings.Cut(run[len(run)-1].parsed, " "))
@@ -249,6 +254,14 @@ package cisco
 //vc:  assign after "if r.IsEqual() {" anyEqualRange = anyEqualRange || callresult
 //vc:  invariant[C14] 1 "for _, r := range diff" @hasEqFollowsDiff hasEq == anyEqualRange
 //vc:  invariant[C14] 2 "for _, c := range al" @onlyStandardACLForcedToReplace hasEq == anyEqualRange || !(len(al) > 0 && al[0].subCmdOf != nil && al[0].subCmdOf.typ.prefix == "ip access-list extended")
+// C08: an ASA standard ACL is never changed line by line ("line N" exists for
+// extended ACLs only): the search for the first line that is no remark goes
+// over all lines, however many remarks precede it, and as long as the
+// incremental path is still open no standard or extended line was met.
+// (The step from here to "diffASAACLs never sees a standard line" needs the
+// parser invariant that an ACL is not mixed; that obligation timed out and is
+// not claimed.)
+//vc:  invariant[C08] 2 "for _, c := range al" @noStandardLineSoFar hasEq ==> (forall k int :: { al[k] } 0 <= k && k <= rangeindex ==> !strings.HasPrefix(al[k].parsed, "access-list $NAME extended ") && !strings.HasPrefix(al[k].parsed, "access-list $NAME standard "))
 //vc:  assert[C14] at "s.delCmds(al)" @wholesaleOnlyWithoutCommonLine al[0].subCmdOf.typ.prefix == "ip access-list extended" ==> !anyEqualRange
 
 // ---- C18: a raw object is merged only once ----
@@ -373,6 +386,11 @@ package cisco
 // position bookkeeping without a command (structural guard).
 //vc:func (*State).diffASAACLs
 //vc:  assert[C01] at "delete(delMap, p)" @deviceLineMovedOnce a != nil
+// (structural, C14: adds and moves are issued first, then the list of pending
+// deletes - collected top-down - is reversed once and the lines that were not
+// moved are deleted bottom-up)
+//vc:  assert[C14] at "slices.Reverse(del)" @deletesIssuedBottomUp true
+//vc:  assert[C14] at "delACL(a)" @onlyLinesNotMovedAreDeleted !a.needed
 
 // C07 (ASA): every access-group of an interface unknown to Netspoc is recorded
 // (appended, not overwritten; also lines with a trailing option), so that
